@@ -232,7 +232,8 @@ def pack(ctx, cols):
       for i in range(n):
         for j in take:
           bits.append(cols[j]["xs"][i])
-      tensors.append(dict(dtype=dt, diag=False, shape=shape, bits=bits, cols=take))
+      tensors.append(dict(dtype=dt, diag=False, shape=shape, bits=bits, cols=take,
+                          spelling=len(tensors) % 4))
   return tensors
 
 
@@ -262,7 +263,8 @@ def gen_diag_tensors(ctx):
           v = of_frac_exact(F(N) * TWO ** k) if (i + 1) % n == j else of_frac_exact(
               (F(rng.rint(0, 50)) + F(1, 2)) * TWO ** k * (-1 if rng.below(2) else 1))
         bits.append(v)
-    out.append(dict(dtype=dt, diag=True, shape=[n, n], bits=bits, kind="diag_mode%d" % mode))
+    out.append(dict(dtype=dt, diag=True, shape=[n, n], bits=bits, kind="diag_mode%d" % mode,
+                    spelling=len(out) % 4))
   return out
 
 
@@ -315,7 +317,8 @@ def run_impl(tensors):
   chunks = [order[i:i + size] for i in range(0, len(order), size)]
   payloads = [dict(tensors=[dict(id=tensors[i]["id"], dtype=tensors[i]["dtype"],
                                  diag=tensors[i]["diag"], shape=tensors[i]["shape"],
-                                 bits=tensors[i]["bits"]) for i in ch]) for ch in chunks]
+                                 bits=tensors[i]["bits"], spelling=tensors[i].get("spelling", 0))
+                            for i in ch]) for ch in chunks]
   outs = common.run_workers_parallel("harness.impl.c11_worker", payloads, x64=False, timeout=3000)
   res = {}
   for o in outs:
@@ -567,7 +570,7 @@ def evaluate(ctx, tensors, known, tag, report=True):
 
 
 def tensor_input(t, col=None):
-  d = dict(dtype=t["dtype"], diag=t["diag"], shape=t["shape"], bits=t["bits"])
+  d = dict(dtype=t["dtype"], diag=t["diag"], shape=t["shape"], bits=t["bits"], spelling=t.get("spelling", 0))
   if col is not None:
     d["column"] = col["j"]
   return d
@@ -716,7 +719,7 @@ def replay(ctx, rec):
   ctx.proofs(PROOF_FILES, extra_targets=EXTRA_TARGETS)
   known = common.load_known_findings("C11")
   t = dict(dtype=inp["dtype"], diag=bool(inp.get("diag")), shape=inp["shape"],
-           bits=[int(b) for b in inp["bits"]], kind="replay")
+           bits=[int(b) for b in inp["bits"]], kind="replay", spelling=inp.get("spelling", 0))
   problems = evaluate(ctx, [t], known, "replay")
   want = inp.get("column")
   shown = 0
